@@ -37,6 +37,7 @@ def generate(seed: int, tier: str = "quick") -> Dict[str, Any]:
         "host_share": rc.choice([0.0, 0.2, 0.5]),
         "pool": rc.choice([0, 2, 4, 8]),  # >0: expressions come from a small per-run pool (repeats)
         "reuse": rc.choice([0.0, 0.3, 0.6]),
+        "shape": rc.choice(["random", "random", "random", "matrix"]),
         # override focus: programs that call size() with and without a host function named size
         "size_focus": rc.random() < 0.2,
         "deep_share": rc.choice([0.0, 0.0, 0.0, 0.2]),
@@ -58,6 +59,41 @@ def generate(seed: int, tier: str = "quick") -> Dict[str, Any]:
         if cfg["runner_mix"] == "mixed":
             return rw.choice(["I", "C"])
         return cfg["runner_mix"]
+
+    if cfg["shape"] == "matrix":
+        # the same few source texts used in every one of 2-4 environments created up front:
+        # for each text, compile / build / evaluate in each environment (in a seeded order)
+        n_env = rw.choice([2, 2, 3, 4])
+        for _ in range(n_env):
+            op = {"op": "E", "id": len(envs), "cfg": gen.gen_env(rw, runner())}
+            envs.append(op)
+            ops.append(op)
+        if cfg["runner_mix"] == "mixed" and len({e["cfg"]["runner"] for e in envs}) == 1:
+            envs[-1]["cfg"]["runner"] = "I" if envs[0]["cfg"]["runner"] == "C" else "C"
+        all_decls = {}
+        for e in envs:
+            all_decls.update(gen.decl_map(e["cfg"]["decls"]))
+        for _ in range(rw.choice([1, 1, 2, 3])):
+            text = gen.gen_expr(rw, all_decls or gen.DECL_SETS["flat"], salt=rw.randrange(0, 3),
+                                size_focus=cfg["size_focus"], deep_share=cfg["deep_share"])
+            order = list(range(n_env))
+            rw.shuffle(order)
+            for ei in order:
+                k = {"op": "K", "id": len(asts), "env": ei, "text": text, "host": []}
+                asts.append({"id": k["id"], "env": ei, "host": [], "progd": True, "valid": True})
+                p_op = {"op": "P", "id": len(progs), "ast": k["id"], "env": ei, "functions": None}
+                progs.append({"id": p_op["id"], "env": ei})
+                ops += [k, p_op]
+                decls = gen.decl_map(envs[ei]["cfg"]["decls"])
+                for _ in range(rw.choice([1, 1, 2])):
+                    ops.append({"op": "V", "prog": p_op["id"],
+                                "bindings": gen.gen_bindings(rw, decls, salt=rw.randrange(0, 4),
+                                                             missing_share=rw.choice([0.0, 0.15, 0.3]))})
+        if abort_rate:
+            for op in ops:
+                if rf.random() < abort_rate / 2:
+                    op["abort"] = int(round(2 ** rf.uniform(0, 11.5)))
+        return {"prop": PROP, "seed": seed, "cfg": cfg, "ops": ops}
 
     while len(ops) < cfg["n_ops"]:
         w_e = 6 if not envs else (1.0 if len(envs) < cfg["max_envs"] else 0.0)
